@@ -30,7 +30,12 @@ def Rem.close (r : Rem) : Rem :=
   else r
 
 /-- the shared WireLog was (re)opened: this remoter's part of the log starts empty and it records from now on -/
-def Rem.relog (r : Rem) (attached : Bool) : Rem := { r with c := { r.c with wl := attached, wireTx := [], wireRx := [] } }
+def Rem.relog (r : Rem) (attached : Bool) (txed : Bool := true) (rxed : Bool := true) : Rem :=
+  { r with c := { r.c with wl := attached, logTx := attached && txed, logRx := attached && rxed, wireTx := [], wireRx := [] } }
+
+/-- the echo application: what was received is queued for sending, the receive buffer is cleared -/
+def Rem.echo (r : Rem) : Rem :=
+  { r with c := { r.c with txbs := r.c.txbs ++ r.c.rxbs, cleared := r.c.cleared ++ r.c.rxbs, rxbs := [] } }
 
 /-- `Remoter.serviceReceives`; with `cs is None` the first `self.cs.recv` is an AttributeError -/
 def Rem.serviceReceives (r : Rem) : Rem × Option Exn :=
@@ -81,6 +86,11 @@ structure Pending where
   dead : Bool := false
 deriving Repr
 
+/-- what the listen socket's next `accept()` will give: a connection, or a non-EAGAIN OSError (EMFILE, ECONNABORTED …) -/
+inductive PItem where
+  | conn (p : Pending) | fault (code : Nat)
+deriving Repr
+
 abbrev Table := List (Nat × Rem)
 
 structure Server where
@@ -88,12 +98,17 @@ structure Server where
   curListen : Option Nat := none
   deadListens : List Nat := []
   nextSid : Nat := 0
-  pending : List Pending := []
+  pending : List PItem := []
+  /-- `.axes`: sockets `accept()` has returned (ids allocated) that have not been made into remoters yet -/
+  axes : List (Nat × Pending) := []
   ixes : Table := []
   cxes : Table := []
   gone : List Rem := []
   /-- a WireLog object is attached to the server (handed to every remoter it makes) -/
   wlAttached : Bool := false
+  /-- the directions that WireLog is configured to record -/
+  wlTxed : Bool := true
+  wlRxed : Bool := true
   /-- that WireLog is currently open (a plain `WireLog()` starts closed; `reopen()` opens it with FRESH, empty logs) -/
   wlOpen : Bool := false
 deriving Repr
@@ -118,27 +133,37 @@ def retire (g : List Rem) : Option Rem → List Rem
   | none => g
   | some o => o.close :: g
 
-def newRem (tls : Bool) (sid : Nat) (p : Pending) (wl : Bool := false) : Rem :=
+def newRem (tls : Bool) (sid : Nat) (p : Pending) (wl : Bool := false) (txed : Bool := true) (rxed : Bool := true) : Rem :=
   { sid := sid, hs := p.hs,
-    c := { kind := if tls then .remoterTls else .remoter, connected := !tls, sends := p.sends, recvs := p.recvs, wl := wl } }
+    c := { kind := if tls then .remoterTls else .remoter, connected := !tls, sends := p.sends, recvs := p.recvs, wl := wl,
+           logTx := wl && txed, logRx := wl && rxed } }
 
-/-- `serviceAxes`: accept everything pending, make a remoter for each, file it under its `ca`
+/-- an accepted socket that never became a remoter (waiting in `.axes`, or closed from there): how it shows in a snapshot -/
+def stub (tls : Bool) (sid : Nat) (p : Pending) (isOpen : Bool) : Rem :=
+  { (newRem tls sid p) with csOpen := isOpen, c := { (newRem tls sid p).c with connected := false } }
+
+/-- `serviceAccepts`: `while True: cs, ca = accept(); if not cs: break; axes.append(...)` — a non-EAGAIN OSError from `accept()`
+propagates; what was accepted before it stays in `.axes` -/
+def drainAccepts (s : Server) : List PItem → Server × Option Exn
+  | [] => ({ s with pending := [] }, none)
+  | .fault _ :: rest => ({ s with pending := rest }, some .osError)
+  | .conn p :: rest =>
+    drainAccepts { s with axes := s.axes ++ [(s.nextSid, p)], nextSid := s.nextSid + 1 } rest
+
+/-- the `while self.axes:` loop of `serviceAxes`: make a remoter for each accepted socket, file it under its `ca`
 (plain: in `ixes`; TLS: in `cxes`), closing a remoter it replaces -/
-def acceptAll (s : Server) : List Pending → Server
-  | [] => { s with pending := [] }
-  | p :: ps =>
+def acceptAll (s : Server) : List (Nat × Pending) → Server
+  | [] => { s with axes := [] }
+  | (sid, p) :: ps =>
     -- the remoter keeps a reference to the server's WireLog object; whether it records depends on the log being open
-    let r := newRem s.tls s.nextSid p (s.wlAttached && s.wlOpen)
+    let r := newRem s.tls sid p (s.wlAttached && s.wlOpen) s.wlTxed s.wlRxed
     if p.dead then
       -- `except OSError: cs.close(); continue`: no remoter is made, the socket is closed
-      acceptAll { s with nextSid := s.nextSid + 1,
-                         gone := { r with csOpen := false, c := { r.c with connected := false } } :: s.gone } ps
+      acceptAll { s with gone := { r with csOpen := false, c := { r.c with connected := false } } :: s.gone } ps
     else if s.tls then
-      acceptAll { s with nextSid := s.nextSid + 1, cxes := (dictSet s.cxes p.ca r).1,
-                         gone := retire s.gone (dictSet s.cxes p.ca r).2 } ps
+      acceptAll { s with cxes := (dictSet s.cxes p.ca r).1, gone := retire s.gone (dictSet s.cxes p.ca r).2 } ps
     else
-      acceptAll { s with nextSid := s.nextSid + 1, ixes := (dictSet s.ixes p.ca r).1,
-                         gone := retire s.gone (dictSet s.ixes p.ca r).2 } ps
+      acceptAll { s with ixes := (dictSet s.ixes p.ca r).1, gone := retire s.gone (dictSet s.ixes p.ca r).2 } ps
 
 structure LoopOut where
   cxes : Table
@@ -188,11 +213,14 @@ def Server.sendAll (s : Server) : Server × Option Exn :=
   ({ s with ixes := o.ixes, gone := o.gone ++ s.gone }, o.exn)
 
 def Server.connects (s : Server) : Server × Option Exn :=
-  let s1 := acceptAll s s.pending
-  if s.tls then
-    let o := cxLoop s1.cxes s1.ixes s1.gone
-    ({ s1 with cxes := o.cxes, ixes := o.ixes, gone := o.gone }, o.exn)
-  else (s1, none)
+  match drainAccepts s s.pending with
+  | (s0, some e) => (s0, some e)
+  | (s0, none) =>
+    let s1 := acceptAll s0 s0.axes
+    if s.tls then
+      let o := cxLoop s1.cxes s1.ixes s1.gone
+      ({ s1 with cxes := o.cxes, ixes := o.ixes, gone := o.gone }, o.exn)
+    else (s1, none)
 
 def sbind (r : Server × Option Exn) (f : Server → Server × Option Exn) : Server × Option Exn :=
   match r with
@@ -210,7 +238,8 @@ def Server.service (s : Server) : Server × Option Exn :=
 def Server.close (s : Server) : Server :=
   { s with curListen := none, deadListens := s.curListen.toList ++ s.deadListens, pending := [],
            ixes := s.ixes.map fun (ca, r) => (ca, r.close),
-           cxes := [], gone := s.cxes.map (fun (_, r) => r.close) ++ s.gone }
+           cxes := [], axes := [],
+           gone := s.axes.map (fun (sid, p) => stub s.tls sid p false) ++ s.cxes.map (fun (_, r) => r.close) ++ s.gone }
 
 /-- the `close()` at the start of `reopen()` -/
 def Server.reclose (s : Server) : Server :=
@@ -232,6 +261,11 @@ def Server.reopenFail (s : Server) : Server :=
 inductive SOp where
   | conn (p : Pending) | svc | tx (ca : Nat) (d : Bytes) | rm (ca : Nat) | close | reopen
   | rxix (ca : Nat) | closeix (ca : Nat) | closeall
+  /-- one `EchoServerDoer.recur()`: `server.service()`, then every connection's received bytes are queued back to it
+  (`ix.tx(bytes(ix.rxbs)); ix.clearRxbs()`) -/
+  | svce
+  /-- the listen socket's `accept()` will raise this (non-EAGAIN) OSError when it gets that far in its queue -/
+  | afault (code : Nat)
   /-- `reopen()` with the bind/listen of the new listen socket failing -/
   | reopenf
   /-- `wl.reopen()` on the server's WireLog: from now on every remoter (old and new) records, into fresh logs -/
@@ -250,8 +284,13 @@ def mapKey (t : Table) (ca : Nat) (f : Rem → Rem) : Table :=
   t.map fun (k, v) => if k = ca then (k, f v) else (k, v)
 
 def Server.step (s : Server) : SOp → Server × Status
-  | .conn p => (if s.curListen.isSome then { s with pending := s.pending ++ [p] } else s, .ok)
+  | .conn p => (if s.curListen.isSome then { s with pending := s.pending ++ [.conn p] } else s, .ok)
+  | .afault code => (if s.curListen.isSome then { s with pending := s.pending ++ [.fault code] } else s, .ok)
   | .svc => let r := s.service; (r.1, statusOf r.2)
+  | .svce =>
+    match s.service with
+    | (s1, some e) => (s1, .raised e)
+    | (s1, none) => ({ s1 with ixes := s1.ixes.map fun (ca, r) => (ca, r.echo) }, .ok)
   | .tx ca d =>
     match dictGet s.ixes ca with
     | none => (s, .raised .other)   -- ValueError("Invalid connection address"), nothing changed
@@ -272,8 +311,9 @@ def Server.step (s : Server) : SOp → Server × Status
     | some _ => ({ s with ixes := mapKey s.ixes ca Rem.close }, .ok)
   | .closeall => ({ s with ixes := s.ixes.map fun (ca, r) => (ca, r.close) }, .ok)
   | .wlopen =>
-    ({ s with wlOpen := true, ixes := s.ixes.map fun (ca, r) => (ca, r.relog s.wlAttached),
-              cxes := s.cxes.map fun (ca, r) => (ca, r.relog s.wlAttached), gone := s.gone.map fun r => r.relog s.wlAttached }, .ok)
+    ({ s with wlOpen := true, ixes := s.ixes.map fun (ca, r) => (ca, r.relog s.wlAttached s.wlTxed s.wlRxed),
+              cxes := s.cxes.map fun (ca, r) => (ca, r.relog s.wlAttached s.wlTxed s.wlRxed),
+              gone := s.gone.map fun r => r.relog s.wlAttached s.wlTxed s.wlRxed }, .ok)
   | .rm ca =>
     match dictGet s.ixes ca with
     | none => (s, .raised .other)
@@ -290,10 +330,11 @@ def Server.run (s : Server) : List SOp → Server
 def Server.start (tls : Bool) : Server := Server.reopen { tls := tls }
 
 /-- the same with a WireLog attached, open or still closed -/
-def Server.startW (tls isOpen : Bool) : Server := Server.reopen { tls := tls, wlAttached := true, wlOpen := isOpen }
+def Server.startW (tls isOpen : Bool) (txed : Bool := true) (rxed : Bool := true) : Server :=
+  Server.reopen { tls := tls, wlAttached := true, wlOpen := isOpen, wlTxed := txed, wlRxed := rxed }
 
 /-- ids of all sockets the server ever obtained that are still open -/
 def Server.openSocks (s : Server) : List Nat :=
-  s.curListen.toList ++ ((s.ixes.map (·.2) ++ s.cxes.map (·.2) ++ s.gone).filter (·.csOpen)).map (·.sid)
+  s.curListen.toList ++ s.axes.map (·.1) ++ ((s.ixes.map (·.2) ++ s.cxes.map (·.2) ++ s.gone).filter (·.csOpen)).map (·.sid)
 
 end Hio.Tcp
